@@ -14,7 +14,11 @@ event 'put' by `set_output(value)`; `on_output` events are 'put' edges.
 
 Exceptions: `St.exc` is the exception in flight (everything except `finally` clauses is skipped while
 it is set; `try/except` sites clear it).  `St.aborted` = `Circuit.abort()` was called (`_error` set, the
-simulation task cancelled): the model stops there, later calls are not part of the model.
+simulation task cancelled): the model stops there, later calls are not part of the model (in the code the
+CancelledError reaches the simulation task at its next await -- `_run_tasks`, the `asyncio.sleep(0)` after the
+`try` -- or the start-up ends at the test `if self._error is None` before `_simulate()`; what runs in between
+is compared by the oracle only).  A refused recursive event aborts at the refusal
+(patches/C11-refused-recursion-aborts.diff).
 
 `wait_init` mirrors the code WITH the repair patches/C05-wait-init-after-failure.diff (the `_error` test);
 `waitInitLegacy` is the unrepaired version (see the counter-example in EdzedProps/C05.lean).
@@ -74,6 +78,7 @@ inductive Err where
 inductive Entry where
   | start (b : Nat)
   | arrive (b : Nat)                              -- `event()` entered
+  | refused (b : Nat)                             -- the recursion guard refused the event (block active)
   | handle (b : Nat) (v : Val) (steps : Int)      -- the 'put' handler runs; `init_steps_completed` at that time
   | restore (b : Nat)
   | async (b : Nat) (uninit : Bool) (timeout : Int)
@@ -104,6 +109,12 @@ def ok (s : St) : Bool := s.exc.isNone && !s.aborted
 def push (s : St) (e : Entry) : St := { s with log := s.log ++ [e] }
 def raise (s : St) (e : Err) : St := { s with exc := some e }
 def swallow (s : St) : St := { s with exc := Option.none }
+/-- the guard of `SBlock.event` (with patches/C11-refused-recursion-aborts.diff): `abort(exc)` at the refusal
+    itself, then `raise exc` -- the error register is set even if a caller swallows the exception;
+    only the first `abort()` counts -/
+def refuse (s : St) : St :=
+  if s.aborted then { s with exc := some .recursion }
+  else { s with exc := some .recursion, aborted := true, abortExc := some .recursion }
 /-- the `except` clause of `SBlock.event`: an error inside the handler → `abort(EdzedCircuitError(...))`, re-raise;
     only the first `abort()` counts -/
 def handlerFrame (s : St) : St :=
@@ -152,7 +163,7 @@ def sendBody (rec : Call → St → St) (ds : List Nat) (v : Val) (s : St) : St 
 /-- `SBlock.event('put', value=v)` -/
 def eventBody (rec : Call → St → St) (d : Nat) (v : Val) (s : St) : St :=
   let s := s.push (.arrive d)
-  if s.active d then s.raise .recursion else
+  if s.active d then (s.push (.refused d)).refuse else
   let s := s.setActive d true
   -- `if 0 <= self.init_steps_completed < 2: with self._enable_event: init_sblock(self, full=True)`
   let s := if 0 ≤ s.steps d ∧ s.steps d < 2
